@@ -393,25 +393,29 @@ def ob_copyfile_world():
 
 
 def ob_copydir_world():
-    """install_subdir(): the real do_copydir over a small source tree (three sibling directories, each empty or with one file, plus a top-level file) with a
-    SYMBOLIC exclusion set: every directory that is not excluded is created (through the DirMaker) and gets its permissions sanitised, nothing below an
-    excluded directory is visited, every non-excluded file is copied to the mirrored place, and nothing else is touched"""
+    """install_subdir(): the real do_copydir over a small source tree - three sibling directories a, b, c, a NESTED a/b with the same name as its uncle, each
+    with or without a file, plus a top-level file - with a SYMBOLIC exclusion set of paths relative to the installed directory (a, b, c, a/b; top.txt,
+    a/in.txt): a directory is created (through the DirMaker, permissions sanitised) iff neither it nor an ancestor is excluded BY ITS RELATIVE PATH, nothing
+    below an excluded directory is visited, every non-excluded file is copied to the mirrored place, nothing else is touched"""
     def h():
         import os as _os
-        names = ['a', 'b', 'c']
-        excl_d = [decide(sym_bool('exclude_dir_' + n)) for n in names]
-        has_file = [decide(sym_bool('file_in_' + n)) for n in names]
+        DIRS = ['a', 'b', 'c', 'a/b']                      # relative paths; parents before children
+        excl_d = {d: decide(sym_bool('exclude_dir_' + d)) for d in DIRS}
+        has_file = {d: decide(sym_bool('file_in_' + d)) for d in DIRS}
         excl_top = decide(sym_bool('exclude_top_file'))
         excl_inner = decide(sym_bool('exclude_file_in_a'))
         calls = []
         created = set()
 
         def walk(top):
-            dirs = list(names); files = ['top.txt']
-            yield top, dirs, files
-            for d in list(dirs):                     # os.walk is top-down: it honours in-place edits of dirs
-                i = names.index(d)
-                yield _os.path.join(top, d), [], (['in.txt'] if has_file[i] else [])
+            def rec(rel):
+                dirs = [d.rsplit('/', 1)[-1] for d in DIRS if (d.rsplit('/', 1)[0] if '/' in d else '') == rel]
+                files = ['top.txt'] if rel == '' else (['in.txt'] if has_file[rel] else [])
+                here = top if rel == '' else _os.path.join(top, rel)
+                yield here, dirs, files
+                for d in list(dirs):                      # os.walk is top-down: it honours in-place edits of dirs
+                    yield from rec(d if rel == '' else rel + '/' + d)
+            yield from rec('')
         fos = types.SimpleNamespace(walk=walk, path=types.SimpleNamespace(isabs=_os.path.isabs, join=_os.path.join, relpath=_os.path.relpath, normpath=_os.path.normpath, dirname=_os.path.dirname,
                                                                             islink=lambda p: False, isdir=lambda p: p in created or p == '/D/dst', exists=lambda p: p in created or p == '/D/dst'))
         saved = MI.os
@@ -423,17 +427,18 @@ def ob_copydir_world():
             ins.do_copyfile = lambda f, t, **k: (calls.append(('copy', f, t)), True)[1]
             ins.set_mode = lambda p, m, u: calls.append(('mode', p))
             dm = types.SimpleNamespace(makedirs=lambda p, **k: (calls.append(('mkdir', p)), created.add(p))[0])
-            excl = ({'top.txt'} if excl_top else set()) | ({'a/in.txt'} if excl_inner else set()), {n for n, e in zip(names, excl_d) if e}
+            excl = ({'top.txt'} if excl_top else set()) | ({'a/in.txt'} if excl_inner else set()), {d for d in DIRS if excl_d[d]}
             ins.do_copydir(types.SimpleNamespace(install_umask=0o022), '/s', '/D/dst', excl, None, dm)
         finally:
             MI.os = saved
         mk = [c[1] for c in calls if c[0] == 'mkdir']; cp = [(c[1], c[2]) for c in calls if c[0] == 'copy']; sn = [c[1] for c in calls if c[0] == 'sanitize']
-        for n, e, hf in zip(names, excl_d, has_file):
-            dst = '/D/dst/' + n
-            check((dst in mk) == (not e), 'a directory is created iff it is not excluded (empty ones too)')
-            check((dst in sn) == (not e), 'every created directory gets its permissions sanitised (install_umask)')
-            inner_excluded = (n == 'a' and excl_inner)
-            check((('/s/%s/in.txt' % n, dst + '/in.txt') in cp) == (hf and not e and not inner_excluded), 'a file is copied iff neither it nor its directory is excluded')
+        for d in DIRS:
+            gone = excl_d[d] or ('/' in d and excl_d[d.rsplit('/', 1)[0]])          # excluded itself, or below an excluded directory
+            dst = '/D/dst/' + d
+            check((dst in mk) == (not gone), 'a directory is created iff neither it nor its parent is excluded - by relative path, not by bare name (empty ones too)')
+            check((dst in sn) == (not gone), 'every created directory gets its permissions sanitised (install_umask)')
+            inner_excluded = (d == 'a' and excl_inner)
+            check((('/s/%s/in.txt' % d, dst + '/in.txt') in cp) == (has_file[d] and not gone and not inner_excluded), 'a file is copied iff neither it nor a directory above it is excluded')
         check((('/s/top.txt', '/D/dst/top.txt') in cp) == (not excl_top), 'top-level file')
         check(len(mk) == len(set(mk)) and len(cp) == len(set(cp)), 'nothing is created or copied twice')
         check(all(p.startswith('/D/dst/') for p in mk + [t for _, t in cp] + sn), 'only the destination tree is touched')
@@ -464,7 +469,7 @@ def obligations(tier):
     out.append(Obligation('is-executable', ob_isexec(), dict(mode='9 symbolic permission bits', umask='022'), labels=('done',)))
     out.append(Obligation('selection', ob_selection(), dict(tags='none | runtime | runtime,devel', skip_subprojects='none | sub | *', entry='4 tags x 3 subprojects', dry_run='symbolic'),
                           labels=('admitted', 'skipped')))
-    out.append(Obligation('copydir-world', ob_copydir_world(), dict(tree='3 sibling directories (empty or one file) + a top-level file', exclude_directories='symbolic subset', exclude_files='symbolic subset'), labels=('done',)))
+    out.append(Obligation('copydir-world', ob_copydir_world(), dict(tree='directories a, b, c and a nested a/b (each empty or with one file) + a top-level file', exclude_directories='symbolic subset of the relative paths a, b, c, a/b', exclude_files='symbolic subset'), labels=('done',)))
     out.append(Obligation('copyfile-world', ob_copyfile_world(), dict(destination='absent | file | directory', source='file | live symlink | dangling symlink | absent', dry_run='symbolic', destination_dir='exists or not'),
                           labels=('installed', 'dry-run', 'refused')))
     out.append(Obligation('symlink-over-existing', ob_symlink_world(), dict(pre_existing='absent | live symlink | dangling symlink | regular file', model='exists follows links, lexists does not, symlink() fails on an existing name'),
